@@ -181,22 +181,39 @@ impl<U: TimeUnitTrait> DateTime<U> {
     {
         if let Some(fmt) = fmt {
             if let Ok(cr_dt) = NaiveDateTime::parse_from_str(s, fmt) {
-                Ok(cr_dt.into())
+                Self::from_parsed(cr_dt, s)
             } else if let Ok(cr_date) = NaiveDate::parse_from_str(s, fmt) {
-                Ok(cr_date.into())
+                Self::from_parsed(cr_date.and_time(NaiveTime::MIN), s)
             } else {
                 tbail!(ParseError:"Failed to parse datetime from string: {}", s)
             }
         } else {
             for fmt in TIME_RULE_VEC.iter() {
                 if let Ok(cr_dt) = NaiveDateTime::parse_from_str(s, fmt) {
-                    return Ok(cr_dt.into());
+                    return Self::from_parsed(cr_dt, s);
                 } else if let Ok(cr_date) = NaiveDate::parse_from_str(s, fmt) {
-                    return Ok(cr_date.into());
+                    return Self::from_parsed(cr_date.and_time(NaiveTime::MIN), s);
                 }
             }
             tbail!(ParseError:"Failed to parse datetime from string: {}", s)
         }
+    }
+
+    /// Converts a successfully parsed chrono datetime into `Self`.
+    ///
+    /// An instant that a nanosecond timestamp cannot represent (outside
+    /// 1677-09-21 ..= 2262-04-11) is reported as a parse error, because the
+    /// infallible `From<CrDateTime<Utc>>` conversion would panic on it.
+    #[inline]
+    fn from_parsed(dt: NaiveDateTime, s: &str) -> TResult<Self>
+    where
+        Self: From<CrDateTime<Utc>>,
+    {
+        let dt = dt.and_utc();
+        if U::unit() == TimeUnit::Nanosecond && dt.timestamp_nanos_opt().is_none() {
+            tbail!(ParseError:"datetime {} is out of range for nanosecond precision", s)
+        }
+        Ok(dt.into())
     }
 
     /// Formats the `DateTime` instance as a string.
